@@ -188,11 +188,11 @@ class TensorLeaf(Node):
         else:
             if big is not None:
                 g = GenVec(rng, n, positive=True)
-                w = g.array().astype(dtype)
+                w = g.array().astype('float32' if dtype == 'float32' else 'float64')
                 wq = '(LArr %s)' % g.coq()
             else:
                 w = np.array([float(rng.choice([1, 2, 3, 4, 0.5, 0.25])) for _ in range(n)]).reshape(shape)
-                w = w.astype(dtype)
+                w = w.astype('float32' if dtype == 'float32' else 'float64')
                 wq = '(LArr %s)' % qlist(w)
             kw['weighting'] = w
         self.space = odl.tensor_space(shape, **kw)
